@@ -26,6 +26,8 @@ import (
 //	                                  sharedmap (per-user IncMap, bound without wrapper, whose elements are handles
 //	                                           of LocalShared variables common to all users)
 //	links (Users = [writer, reader]): chan (OutputChan -> Go channel -> InputChan) | tcp (TCP mailbox on loopback)
+//	                                  | single-output-chan (SingleOutputChan -> Go channel -> InputChan: the value is
+//	                                    on the channel as soon as it is written; a section that sent cannot abort)
 type resSpec struct {
 	Name  string `json:"name"`
 	Kind  string `json:"kind"`
@@ -39,7 +41,7 @@ type sysSpec struct {
 
 var archNames = []string{"A", "B", "C"}
 
-func isLink(kind string) bool { return kind == "chan" || kind == "tcp" }
+func isLink(kind string) bool { return kind == "chan" || kind == "tcp" || kind == "single-output-chan" }
 
 // base strips the "-raw" suffix: a "-raw" kind is the same resource bound without Logging/Faulty wrappers.
 func base(kind string) string { return strings.TrimSuffix(kind, "-raw") }
@@ -76,6 +78,11 @@ func menu(r resSpec, a int) []gate2.Op {
 	case "chan":
 		if r.Users[0] == a {
 			return []gate2.Op{{K: "w", R: n}, {K: "f", R: n}}
+		}
+		return []gate2.Op{{K: "r", R: n}}
+	case "single-output-chan":
+		if r.Users[0] == a {
+			return []gate2.Op{{K: "w", R: n}}
 		}
 		return []gate2.Op{{K: "r", R: n}}
 	case "tcp":
@@ -271,6 +278,10 @@ func buildSystem(sys sysSpec, env *wenv, withFaulty bool) *built {
 		case "chan":
 			ch := make(chan tla.Value, 16)
 			bind(r.Users[0], n, resources.NewOutputChan(ch))
+			bind(r.Users[1], n, resources.NewInputChan(ch, resources.WithInputChanReadTimeout(20*time.Second)))
+		case "single-output-chan":
+			ch := make(chan tla.Value, 16)
+			bind(r.Users[0], n, resources.NewSingleOutputChan(ch))
 			bind(r.Users[1], n, resources.NewInputChan(ch, resources.WithInputChanReadTimeout(20*time.Second)))
 		case "tcp":
 			addr := fmt.Sprintf("127.0.0.1:%d", env.port())
